@@ -46,8 +46,10 @@ class Contract:
     def __init__(self, target, params=None, requires=(), ensures=(), raises=None, loops=None, handlers=None, globals=None,
                  local_sorts=None, props=(), assumptions=(), note='', cut=None, max_paths=4000, replay=None,
                  on_outcomes=None, comprehensions=None, ghost_init=None, store_handler=None, truthy_handlers=None,
-                 raise_order_free=False, havoc=None, registry_ext=None, expr_hooks=None, ignore_unknown_exceptions=False):
+                 raise_order_free=False, havoc=None, registry_ext=None, expr_hooks=None, ignore_unknown_exceptions=False, merge_set_branches=False):
         self.target = target
+        self.prune_quantifier_free = False     # engine: feasibility pruning over the quantifier-free facts only (faster on contracts with quantified invariants)
+        self.merge_set_branches = merge_set_branches      # engine: merge the two outcomes of a conditional that differ only in set-valued locals
         self.params = dict(params or {})
         self.requires = list(requires)
         self.ensures = list(ensures)
@@ -163,6 +165,50 @@ def discharge(ob, model_vars=None, use_external=True):
     return ob
 
 
+# ------------------------------------------------------------------ parallel discharge (obligations are independent queries)
+PAR_MIN = 200          # only worth it for contracts with many obligations
+_POOL = [None]
+
+
+def _solve_smt2(text):
+    import z3 as zz
+    t = time.time()
+    try:
+        ctx = zz.Context(); so = zz.Solver(ctx=ctx); so.set('timeout', Z3_TIMEOUT_MS)
+        so.from_string(text)
+        r = so.check()
+        return (str(r), (time.time() - t) * 1000)
+    except Exception as ex:       # noqa
+        return ('error:' + type(ex).__name__, (time.time() - t) * 1000)
+
+
+def discharge_all(obs, mv):
+    """Non-trivial obligations of a large contract are written out as SMT-LIB and decided by worker processes; only `unsat` is taken from a worker
+    (the obligation is discharged); everything else (sat, unknown, error) is decided again in this process by discharge(), which also extracts the model."""
+    pending = [ob for ob in obs if not z3.is_true(ob.claim)]
+    ncpu = min(16, os.cpu_count() or 1)
+    if len(pending) < PAR_MIN or ncpu < 4 or os.environ.get('VERIF_SERIAL'):
+        for ob in obs: discharge(ob, mv)
+        return
+    texts = []
+    for ob in pending:
+        so = z3.Solver(); so.add(*ob.pc); so.add(z3.Not(ob.claim)); texts.append(so.to_smt2())
+    import multiprocessing as mp
+    if _POOL[0] is None:
+        _POOL[0] = mp.get_context('fork').Pool(ncpu)
+        import atexit; atexit.register(lambda: (_POOL[0].terminate(), _POOL[0].join()))
+    try:
+        results = _POOL[0].map(_solve_smt2, texts, chunksize=4)
+    except Exception:      # noqa
+        results = [('error', 0.0)] * len(texts)
+    done = set()
+    for ob, (r, ms) in zip(pending, results):
+        if r == 'unsat':
+            ob.result = 'discharged'; ob.backend = 'z3-' + z3.get_version_string() + ' (worker process, SMT-LIB)'; ob.ms = ms; done.add(id(ob))
+    for ob in obs:
+        if id(ob) not in done: discharge(ob, mv)
+
+
 def _pyval(t):
     if z3.is_int_value(t): return t.as_long()
     if z3.is_true(t): return True
@@ -225,7 +271,9 @@ def verify(contract, registry, src_root='/repo'):
             for k, d in contract.registry_ext.items(): getattr(registry, k).update(d)
         x = E.Executor(src_root, contract, registry)
         rep.source_sha = hashlib.sha256(ast.unparse(x.fn).encode()).hexdigest()[:16]
-        outs = x.run()
+        E.PRUNE_QUANTIFIER_FREE[0] = bool(getattr(contract, 'prune_quantifier_free', False))
+        try: outs = x.run()
+        finally: E.PRUNE_QUANTIFIER_FREE[0] = False
     except Unsupported as u:
         rep.status = 'undecided'; rep.reason = f'outside the modelled subset: {u}'; rep.wall_s = time.time() - t0
         return rep
@@ -274,8 +322,7 @@ def verify(contract, registry, src_root='/repo'):
             contract.on_outcomes(x, outs, add)
         except Unsupported as u:
             rep.status = 'undecided'; rep.reason = f'outside the modelled subset: {u}'
-    for ob in obs:
-        discharge(ob, mv)
+    discharge_all(obs, mv)
     rep.obligations = obs
     rep.wall_s = time.time() - t0
     return rep
